@@ -729,10 +729,7 @@ fn scenario_expiry(args: &Args, report: &mut Report) {
     };
     let case = json!({"engine":"http_live","scenario":"expiry","config":cfg.label});
     let ip = IpAddr::V4(Ipv4Addr::new(127, 0, 12, 1));
-    let wait_sample = |w: usize| {
-        let s = counter("http.time_refreshed");
-        vcore::net::wait_until(8000, || counter("http.time_refreshed") >= s + 2 * w as u64)
-    };
+    let wait_sample = |_w: usize| vhttp::live::wait_time_refreshed();
     let t0 = 5000u32;
     aquatic_common::verif::set_clock(Some(t0));
     if !wait_sample(cfg.w) {
@@ -863,6 +860,7 @@ fn scenario_corpus(args: &Args, report: &mut Report) {
 }
 
 fn main() {
+    vcore::init_logger_from_env();
     let args = Args::parse();
     let scenario = args.str("scenario", "framing");
     let mut report = Report::new("http_live", "in-process http tracker + TCP clients with a framing monitor; sequential phases compared with the reference tracker, concurrent phases checked for linearizability; distinct = (request kind, configuration, swarm size class / workers spanned, split)");
